@@ -27,3 +27,22 @@ Definition im_alg (v : list N) : outcome (list N) unit := match split_dash v wit
 Definition im_digest (v : list N) : outcome (list N) unit := match split_dash v with Some (_, rest) => Ok (first_piece rest) | None => Panic end.
 Definition im_digest_bytes (v : list N) : outcome (list N) unit :=
   match im_digest v with Ok d => match b64s_decode d with Some b => Ok b | None => Panic end | Err e => Err e | Panic => Panic end.
+
+(* MethodDigest::pack / unpack (identity_storage/src/key_id_storage/method_digest.rs): one version byte and the
+   little-endian u64.  The indexing `bytes[0]` and the slice `bytes[1..9]` panic when out of bounds; the length test
+   in front of them is the guard. *)
+Definition idx (l : list N) (i : nat) : outcome N unit := match nth_error l i with Some x => Ok x | None => Panic end.
+Definition slice (l : list N) (a b : nat) : outcome (list N) unit :=
+  if Nat.ltb (length l) b then Panic else if Nat.ltb b a then Panic else Ok (firstn (b - a) (skipn a l)).
+Fixpoint le_bytes (n : nat) (v : N) : list N := match n with O => [] | S m => v mod 256 :: le_bytes m (v / 256) end.
+Fixpoint from_le (l : list N) : N := match l with [] => 0 | b :: r => b + 256 * from_le r end.
+Record mdigest := { md_version : N; md_value : N }.
+Definition md_pack (d : mdigest) : list N := md_version d :: le_bytes 8 (md_value d).
+Definition md_unpack (guarded : bool) (bytes : list N) : outcome mdigest unit :=
+  if guarded && negb (Nat.eqb (length bytes) 9) then Err tt else
+  match idx bytes 0 with
+  | Ok version => if negb (version =? 0) then Err tt else
+                  match slice bytes 1 9 with
+                  | Ok s => if Nat.eqb (length s) 8 then Ok {| md_version := version; md_value := from_le s |} else Err tt   (* try_into [u8; 8] *)
+                  | Err e => Err e | Panic => Panic end
+  | Err e => Err e | Panic => Panic end.
